@@ -38,7 +38,7 @@ SYSTEMS = {
     'whds': dict(fwd='reb_particles_transform_inertial_to_whds_posvel', inv='reb_particles_transform_whds_to_inertial_posvel',
                    inv_pos='reb_particles_transform_whds_to_inertial_pos', pmass=False),
     'barycentric': dict(fwd='reb_particles_transform_inertial_to_barycentric_posvel', inv='reb_particles_transform_barycentric_to_inertial_posvel',
-                   inv_pos='reb_particles_transform_barycentric_to_inertial_pos', pmass=False),   # inertial_to_barycentric_acc is declared in rebound.h but not defined
+                   inv_pos='reb_particles_transform_barycentric_to_inertial_pos', inv_acc='reb_particles_transform_barycentric_to_inertial_acc', pmass=False),   # inertial_to_barycentric_acc is declared in rebound.h but not defined
 }
 
 def call_t(I, name, a, b, N, na, pmass=None):
@@ -133,6 +133,21 @@ def run_unit(u):
             for a, p in zip(ACC, POS):
                 ob.prove("forward_acc[%d].%s == forward_pos applied to accelerations" % (i, a), dom.z(TA.get(i, a)) == dom.z(T2.get(i, p)), assum + [b != 0 for b in dom.divs], axioms=dom.axioms,
                          on_sat=on_sat_factory("acc variant disagrees with pos variant"), domain='REAL')
+    if 'inv_acc' in S and 'fwd_acc' not in S:
+        # only an inverse acceleration variant exists: it must be the inverse position map applied to the accelerations
+        # (the transformed set T carries the masses; the accelerations of P serve as arbitrary transformed accelerations)
+        QA = PArr(I, N, 'tacc'); QP = PArr(I, N, 'tacc_as_pos')
+        for i in range(N):
+            mi_ = dom.z(T.get(i, 'm')) if i < na else M[i]          # slots of test particles carry whatever mass the caller left there: it must be ignored
+            QA.set(i, 'm', mi_); QP.set(i, 'm', mi_)
+            for a, p_ in zip(ACC, POS): QA.set(i, a, P.vals[(i, a)]); QP.set(i, p_, P.vals[(i, a)])
+        BA = PArr(I, N, 'back_acc'); BP = PArr(I, N, 'back_acc_as_pos')
+        for i in range(N): BA.set(i, 'm', M[i]); BP.set(i, 'm', M[i])
+        call_t(I, S['inv_acc'], BA, QA, N, na, pm); call_t(I, S['inv_pos'], BP, QP, N, na, pm)
+        for i in range(N):
+            for a, p_ in zip(ACC, POS):
+                ob.prove("inverse_acc[%d].%s == inverse_pos applied to accelerations" % (i, a), dom.z(BA.get(i, a)) == dom.z(BP.get(i, p_)), assum + [b != 0 for b in dom.divs], axioms=dom.axioms,
+                         on_sat=on_sat_factory("inverse acc variant disagrees with inverse pos variant"), domain='REAL')
     if 'fwd_pva' in S:
         T3 = PArr(I, N, 'transformed_pva')
         call_t(I, S['fwd_pva'], P, T3, N, na, pm)
@@ -239,6 +254,23 @@ def native_roundtrip(u, vals, validate_only=False):
                 if not d <= w2: w2, wh2 = (d if d == d else float('inf')), ('acc vs pos map', i, a_)
         if w2 > atol: bad = True
         acc_note = ", acceleration variants worst %.3e at %r (tolerance %.1e)" % (w2, wh2, atol)
+    if 'inv_acc' in S and 'fwd_acc' not in S:
+        QA = arr(); QP = arr(); BA = arr(); BP = arr()
+        for i in range(N):
+            mi_ = view(T, i).get('m') if i < na else vals['m%d' % i]
+            view(QA, i).set('m', mi_); view(QP, i).set('m', mi_)
+            view(BA, i).set('m', vals['m%d' % i]); view(BP, i).set('m', vals['m%d' % i])
+            for a_, p_ in zip(ACC, POS): view(QA, i).set(a_, vals['%s%d' % (a_, i)]); view(QP, i).set(p_, vals['%s%d' % (a_, i)])
+        call(S['inv_acc'], BA, QA); call(S['inv_pos'], BP, QP)
+        ascale = max([abs(vals['%s%d' % (f, i)]) for i in range(N) for f in ACC] + [1e-300])
+        atol = 1e-7 * ascale * max(1.0, (mtot / mmin) if mmin > 0 else 1.0)
+        w2 = 0.0; wh2 = None
+        for i in range(N):
+            for a_, p_ in zip(ACC, POS):
+                d = abs(view(BA, i).get(a_) - view(BP, i).get(p_))
+                if not d <= w2: w2, wh2 = (d if d == d else float('inf')), ('inverse acc vs inverse pos map', i, a_)
+        if w2 > atol: bad = True
+        acc_note = ", inverse acceleration variant worst %.3e at %r (tolerance %.1e)" % (w2, wh2, atol)
     return bad, "native round trip error %.3e at %r, slot-0 error %.3e (tolerance %.1e)%s" % (worst, where, com_bad, tol, acc_note)
 
 def replay(data):
